@@ -129,6 +129,8 @@ def dynamics_registry() -> dict:
             "bw_analytic": b.create_analytic_breit_wigner,
             "bw_swave": b.RelativisticBreitWignerBuilder(
                 energy_dependent_width=True, form_factor=False, phsp_factor=PhaseSpaceFactorSWave),
+            "bw_ffonly": b.RelativisticBreitWignerBuilder(form_factor=True, energy_dependent_width=False),
+            "bw_edw": b.RelativisticBreitWignerBuilder(energy_dependent_width=True, form_factor=False),
             "probeA": ProbeBuilder("A"),
             "probeB": ProbeBuilder("B"),
             "probeC": ProbeBuilder("C"),
